@@ -86,6 +86,7 @@ def impl(case):
     ev = _calculate_transition_events(atom_sites=states, atom_inner_sites=inner)
     tr = Transitions(trajectory=traj, diff_trajectory=traj, sites=_Sites(), events=ev, states=states, inner_states=inner)
     out = {}
+    guard = synth.InputGuard(transitions=tr, trajectory=traj)
     try:
         parts = tr.split(case['n_parts'])
     except ValueError as e:
@@ -131,6 +132,7 @@ def impl(case):
     t2 = synth.make_traj(m, ['Li'], c2)
     out['tp'] = [[int(round(v * 1024)) for v in p.positions[:, 0, 0]] for p in t2.split(case['n_parts'])]
     out['te'] = [[int(round(v * 1024)) for v in p.positions[:, 0, 0]] for p in t2.split(case['n_parts'], equal_parts=True)]
+    out['inputs_changed'] = guard.changed()
     return out
 
 
@@ -142,7 +144,7 @@ def oracle(case, out):
         return []
     if 'st' not in out:
         return [('c19/harness-error', f"{out.get('error')}: {out.get('msg')} {out.get('tb', '')[-300:]}")]
-    fs = []
+    fs = synth.inputs_clause(out, 'Transitions.split / Jumps.split / Trajectory.split')
     n = case['n_parts']
     if out['n'] != n or len(out['tp']) != n:
         fs.append(('split/number-of-parts', f'{out["n"]} parts for n_parts={n}'))
